@@ -340,6 +340,23 @@ def _s1_use_and_produce(program, res):
         return
     updates = [n for n in g.stmt_nodes(("stmt",)) if isinstance(n.stmt, ast.Assign) and isinstance(n.stmt.targets[0], ast.Name)
                and n.stmt.targets[0].id == acc and any(isinstance(b.stmt, ast.For) for b, _l in g.lexical_guards(n))]
+    # the accumulator may also be filled and emptied through calls: <acc>.update(..) / f(<acc>) grow it, <acc>.discard(..) and friends shrink it
+    in_loop_calls = [(n, c) for n in g.stmt_nodes(("stmt",)) if any(isinstance(b.stmt, ast.For) for b, _l in g.lexical_guards(n))
+                     for c in ast.walk(n.stmt) if isinstance(c, ast.Call)]
+    shrinking = [(n, c) for (n, c) in in_loop_calls if isinstance(c.func, ast.Attribute) and isinstance(c.func.value, ast.Name) and c.func.value.id == acc
+                 and c.func.attr in ("discard", "remove", "difference_update", "intersection_update", "symmetric_difference_update", "clear", "pop")]
+    growing = [(n, c) for (n, c) in in_loop_calls if (isinstance(c.func, ast.Attribute) and isinstance(c.func.value, ast.Name) and c.func.value.id == acc
+                                                       and c.func.attr in ("add", "update"))
+               or any(isinstance(a_, ast.Name) and a_.id == acc for a_ in c.args)]
+    if shrinking:
+        n_, c_ = shrinking[0]
+        res.fail_at("C26-S1", f, "rule:use and produce in the same step (accumulator shrinks)",
+                    f"`{unparse(c_)[:60]}` removes an element from the set of columns used by the assignments seen so far: a column read by an earlier assignment and produced by "
+                    f"a later one of the same step is forgotten — extend({{'y': 'x + 1', 'x': 'v'}}) is accepted while {{'x': 'v', 'y': 'x + 1'}} is refused", c_)
+        return
+    if not updates and growing:
+        res.ok("C26-S1", f"use-and-produce: `{acc}` is only filled inside the loop over the assignments (no removal)")
+        return
     if not updates:
         raise AnalysisError(f"parse_assignments_in_context: `{acc}` is never updated inside the loop over the assignments")
     for n in updates:
